@@ -16,23 +16,23 @@ import (
 )
 
 type SimAnchors struct {
-	SimT, WarT, QueueT *types.Named
-	MField, MemField   string
-	RL, WL, MaxProcs   string
-	MaxCycles          string
-	CfgMap             map[string]string // sim field -> config field
-	Ctor               *ssa.Function
-	ReadFold, WriteFold *ssa.Function
-	Exec               *ssa.Function
-	Helpers            []*ssa.Function
-	ReportFn           *ssa.Function
-	Push, Pop, QLen    *ssa.Function
-	QField             string // warrior field holding *queue
-	StateField         string
-	IndexField         string
-	Spawn, RunCycle, Run, Reset *ssa.Function
+	SimT, WarT, QueueT                                              *types.Named
+	MField, MemField                                                string
+	RL, WL, MaxProcs                                                string
+	MaxCycles                                                       string
+	CfgMap                                                          map[string]string // sim field -> config field
+	Ctor                                                            *ssa.Function
+	ReadFold, WriteFold                                             *ssa.Function
+	Exec                                                            *ssa.Function
+	Helpers                                                         []*ssa.Function
+	ReportFn                                                        *ssa.Function
+	Push, Pop, QLen                                                 *ssa.Function
+	QField                                                          string // warrior field holding *queue
+	StateField                                                      string
+	IndexField                                                      string
+	Spawn, RunCycle, Run, Reset                                     *ssa.Function
 	WarriorsField, CountField, LivingField, CycleField, CursorField string
-	Err                []string
+	Err                                                             []string
 }
 
 var simAnchors *SimAnchors
